@@ -104,6 +104,7 @@ typedef struct _THREAD_ARGS
   CALLBACK_ARGS callback_args;
   time_t deadline;
   int current_count;
+  int scan_errors;  // number of files whose scan ended in error
 
 } THREAD_ARGS;
 
@@ -1327,6 +1328,8 @@ static void* scanning_thread(void* param)
 
       if (result != ERROR_SUCCESS)
       {
+        args->scan_errors++;
+
         cli_mutex_lock(&output_mutex);
         _ftprintf(stderr, _T("error scanning %s: "), file_path);
         print_scanner_error(args->scanner, result);
@@ -1635,6 +1638,7 @@ int _tmain(int argc, const char_t** argv)
     {
       thread_args[i].deadline = scan_opts.deadline;
       thread_args[i].current_count = 0;
+      thread_args[i].scan_errors = 0;
 
       result = yr_scanner_create(rules, &thread_args[i].scanner);
 
@@ -1672,7 +1676,14 @@ int _tmain(int argc, const char_t** argv)
     for (int i = 0; i < threads; i++) cli_thread_join(&thread[i]);
 
     for (int i = 0; i < threads; i++)
+    {
+      // An error reported while scanning any of the files must be reflected
+      // in the exit status, as it is when a single file is scanned.
+      if (thread_args[i].scan_errors > 0 && result == ERROR_SUCCESS)
+        result = ERROR_INTERNAL_FATAL_ERROR;
+
       yr_scanner_destroy(thread_args[i].scanner);
+    }
 
     file_queue_destroy();
 
